@@ -289,24 +289,79 @@ func (c07) Exec(c *sim.Case, env *Env) []sim.Violation {
 
 	// ---- (S) every document alone
 	solo := newC07obs()
-	for _, s := range slots {
+	runSolo := func() {
+		for _, s := range slots {
+			document.VerifResetProcessState()
+			simrt.InstallOrder(c.Order, c.OrderSeed, 0, nil)
+			w := mkWorld(fmt.Sprintf("s%d", s), sim.NewStats(), &sim.Log{}, solo)
+			n := 0
+			for _, t := range c.Tasks {
+				for _, op := range t {
+					if op.D == s {
+						w.Apply(op)
+						n++
+					}
+				}
+			}
+			if n >= 2 {
+				env.Stats.Probe("docs_with_2_ops")
+			}
+			simrt.Uninstall()
+		}
+	}
+
+	// ---- (C) concurrent under the scheduler: executed by runConc, judged by judgeConc. In a COLD case (the very first
+	// library calls of a fresh process are the concurrent ones: lazily initialised package-level state is still
+	// untouched) it is executed before the other phases and judged after them.
+	var (
+		cs      *sched.Sched
+		conc    []*c07obs
+		cstats  []*sim.Stats
+		clogs   []*sim.Log
+		raceLog string
+		ioStats *simrt.IOStats
+	)
+	runConc := func() {
 		document.VerifResetProcessState()
-		simrt.InstallOrder(c.Order, c.OrderSeed, 0, nil)
-		w := mkWorld(fmt.Sprintf("s%d", s), sim.NewStats(), &sim.Log{}, solo)
-		n := 0
-		for _, t := range c.Tasks {
-			for _, op := range t {
-				if op.D == s {
+		cs = sched.New(sim.NewRand(c.SchedSeed ^ 0xC0))
+		simrt.InstallOrder(c.Order, c.OrderSeed^2, len(c.Tasks), cs)
+		ioStats = simrt.InstallIO(cs, nil)      // every file-system call of the library is a yield point: tasks interleave inside Save and Open
+		simrt.InstallPoints(cs, c.C("preempt")) // and, in some runs, function and loop entries of the library (drawn gaps)
+		conc = make([]*c07obs, len(c.Tasks))
+		cstats = make([]*sim.Stats, len(c.Tasks))
+		clogs = make([]*sim.Log, len(c.Tasks))
+		fns := make([]func(), len(c.Tasks))
+		for t := range c.Tasks {
+			t := t
+			conc[t] = newC07obs()
+			cstats[t] = sim.NewStats()
+			clogs[t] = &sim.Log{}
+			// all tasks save into ONE directory (under file names of their own), as programs do
+			w := mkWorld("c", cstats[t], clogs[t], conc[t])
+			w.FilePrefix = fmt.Sprintf("t%d-", t)
+			ops := c.Tasks[t]
+			fns[t] = func() {
+				for _, op := range ops {
 					w.Apply(op)
-					n++
+					cs.Yield()
 				}
 			}
 		}
-		if n >= 2 {
-			env.Stats.Probe("docs_with_2_ops")
+		if env.RaceNew != nil {
+			env.RaceNew() // drain
 		}
+		cs.Run(fns)
 		simrt.Uninstall()
+		if env.RaceNew != nil {
+			raceLog = env.RaceNew()
+		}
 	}
+	cold := c.C("cold") != 0
+	if cold {
+		runConc()
+		env.Stats.Probe("cold_concurrent_first")
+	}
+	runSolo()
 
 	// ---- (I) interleaved on one goroutine
 	{
@@ -342,42 +397,13 @@ func (c07) Exec(c *sim.Case, env *Env) []sim.Violation {
 		}
 	}
 
-	// ---- (C) concurrent under the scheduler
+	// ---- (C) judged
 	{
-		document.VerifResetProcessState()
-		s := sched.New(sim.NewRand(c.SchedSeed ^ 0xC0))
-		simrt.InstallOrder(c.Order, c.OrderSeed^2, len(c.Tasks), s)
-		ioStats := simrt.InstallIO(s, nil)     // every file-system call of the library is a yield point: tasks interleave inside Save and Open
-		simrt.InstallPoints(s, c.C("preempt")) // and, in some runs, function and loop entries of the library (drawn gaps)
-		conc := make([]*c07obs, len(c.Tasks))
-		stats := make([]*sim.Stats, len(c.Tasks))
-		logs := make([]*sim.Log, len(c.Tasks))
-		fns := make([]func(), len(c.Tasks))
-		for t := range c.Tasks {
-			t := t
-			conc[t] = newC07obs()
-			stats[t] = sim.NewStats()
-			logs[t] = &sim.Log{}
-			// all tasks save into ONE directory (under file names of their own), as programs do
-			w := mkWorld("c", stats[t], logs[t], conc[t])
-			w.FilePrefix = fmt.Sprintf("t%d-", t)
-			ops := c.Tasks[t]
-			fns[t] = func() {
-				for _, op := range ops {
-					w.Apply(op)
-					s.Yield()
-				}
-			}
+		if !cold {
+			runConc()
 		}
-		if env.RaceNew != nil {
-			env.RaceNew() // drain
-		}
-		s.Run(fns)
-		simrt.Uninstall()
-		raceLog := ""
-		if env.RaceNew != nil {
-			raceLog = env.RaceNew()
-		}
+		s := cs
+		stats, logs := cstats, clogs
 		env.Stats.ProbeN("context_switches", int64(s.Switches))
 		env.Stats.ProbeN("preemptions_inside_library_calls", int64(s.Preemptions))
 		env.Stats.ProbeN("preemption_points_passed", s.Points)
